@@ -286,6 +286,16 @@ def _entailed(test, conds):
             return not pol
         if isinstance(test, ast.UnaryOp) and isinstance(test.op, ast.Not) and unparse(test.operand) == unparse(t):
             return not pol
+    # the complementary comparison was taken before: `A is not B` / `A is B`, `A != B` / `A == B`, `A not in B` / `A in B`
+    if isinstance(test, ast.Compare) and len(test.ops) == 1:
+        comp = {ast.Is: ast.IsNot, ast.IsNot: ast.Is, ast.Eq: ast.NotEq, ast.NotEq: ast.Eq, ast.In: ast.NotIn, ast.NotIn: ast.In,
+                ast.Lt: ast.GtE, ast.GtE: ast.Lt, ast.Gt: ast.LtE, ast.LtE: ast.Gt}
+        c = comp.get(type(test.ops[0]))
+        if c is not None:
+            alt = unparse(ast.Compare(left=test.left, ops=[c()], comparators=test.comparators))
+            for t, pol in conds:
+                if unparse(t) == alt:
+                    return not pol
     if isinstance(test, ast.Compare) and len(test.ops) == 1 and isinstance(test.ops[0], (ast.Is, ast.IsNot)) and \
             isinstance(test.comparators[0], ast.Constant) and test.comparators[0].value is None:
         x = unparse(test.left)
